@@ -142,3 +142,32 @@ let () =
           | PsOrig (f, i) -> Printf.sprintf "%d.%d.o" (int_of_nat f) (int_of_nat i)
           | PsCopy (f, i, n) -> Printf.sprintf "%d.%d.c%d" (int_of_nat f) (int_of_nat i) (int_of_nat n)) out)
     | _ -> "?args")
+
+(* unreferenced-resource removal (Struct/ResPrune.v): same line as harness/drv_resprune.cc *)
+let () =
+  register "rprune" (fun args -> match args with
+    | [root; nodes] ->
+      let tbl = Hashtbl.create 32 in
+      List.iter (fun e ->
+          let i = String.index e '=' in
+          let id = int_of_string (String.sub e 0 i) in
+          match String.split_on_char ':' (String.sub e (i + 1) (String.length e - i - 1)) with
+          | [flags; uses; fonts; xobjs] -> Hashtbl.replace tbl id (flags, split ',' uses, split ',' fonts, split ',' xobjs)
+          | _ -> failwith "node") (split ';' nodes);
+      let pair s = let k = String.index s '.' in (int_of_string (String.sub s 0 k), int_of_string (String.sub s (k + 1) (String.length s - k - 1))) in
+      let rec build id =
+        let (flags, uses, fonts, xobjs) = Hashtbl.find tbl id in
+        let has c = String.contains flags c in
+        RpnNode (n_of_int id, has 'f', has 'b',
+                 List.map (fun u -> let (a, b) = pair u in (n_of_int a, n_of_int b)) uses,
+                 (has 'r' || has 'R' || has 'h'),
+                 List.map (fun k -> (n_of_int (int_of_string k), n_of_int 3)) fonts,
+                 List.map (fun e -> let (k, c) = pair e in (n_of_int k, build c)) xobjs) in
+      let out = ref [] in
+      let rec dump n =
+        let ks l = match l with [] -> "-" | _ -> String.concat "," (List.map (fun (k, _) -> string_of_int (int_of_n k)) l) in
+        out := (int_of_n (rpn_id n), ks (rpn_fonts n) ^ ":" ^ ks (rpn_xobjs n)) :: !out;
+        List.iter (fun (_, c) -> dump c) (rpn_xobjs n) in
+      dump (rpn_run (build (int_of_string root)));
+      String.concat ";" (List.map (fun (i, s) -> string_of_int i ^ "=" ^ s) (List.sort compare !out))
+    | _ -> "?args")
